@@ -23,24 +23,24 @@ RULES = {
 
 ASSUME = ['spec/layouts.json is a correct transcription of IEEE 1722-2016 / acf-vss.md (hand-checked, see DESIGN appendix A)',
           'values outside the stated lattices are not executed',
-          'native x86-64 gcc -O2 build of the working tree; other worlds are the subject of C14/C15']
+          'three worlds: gcc -O2 (full lattice), gcc -O0 (the project\'s default build) and gcc -O3 -DNDEBUG (CMake Release), the latter two with the reduced lattice; other worlds are the subject of C14/C15']
 
 
-def build(prop):
-    b = core.fresh_dir(os.path.join(core.ROOT, 'build', prop))
+def build(prop, opt='-O2', fresh=True, defs=()):
+    b = core.fresh_dir(os.path.join(core.ROOT, 'build', prop)) if fresh else os.path.join(core.ROOT, 'build', prop)
     g = os.path.join(b, 'gen')
     rep = core.run_gen(g)
-    wobjs = core.build_world(os.path.join(b, 'world'), g, world_srcs=['wrap_generic.c'])
+    wobjs = core.build_world(os.path.join(b, 'world' + opt), g, cflags=(opt, '-g'), world_srcs=['wrap_generic.c'], defines=defs)
     nobjs = core.build_native(os.path.join(b, 'native'), g, ['common.c', 'explore_fields.c'])
-    exe = core.link(os.path.join(b, 'explore_fields'), nobjs + wobjs)
+    exe = core.link(os.path.join(b, 'explore_fields' + opt), nobjs + wobjs)
     return exe, rep
 
 
-def make_replayer(exe):
+def make_replayer(exe, tier='quick'):
     def rp(case, key):
         outs = []
         for _ in range(2):
-            r = subprocess.run([exe, '--case', case], stdout=subprocess.PIPE, stderr=subprocess.PIPE, text=True)
+            r = subprocess.run([exe, '--tier', tier, '--case', case], stdout=subprocess.PIPE, stderr=subprocess.PIPE, text=True)
             outs.append((r.returncode, [l for l in r.stdout.splitlines() if l.startswith(('OBS', 'V\t'))]))
         if outs[0] != outs[1]:
             return False, 'NON-DETERMINISTIC: two fresh-process replays of the same case differ (hidden state?)'
@@ -56,14 +56,21 @@ def run(prop, tier):
     planted = core.selftest(exe, 'the field explorer (wrong spec row)')
     timeout = 1500 if tier == 'thorough' else 600
     res = core.run_slices(exe, ['--suite', prop, '--tier', tier], timeout=timeout)
+    # the project's own default build has no optimisation flag: the lite lattice (quick tier) / the quick lattice
+    # (thorough tier) again in a gcc -O0 world
+    exe0, _ = build(prop, '-O0', fresh=False)
+    res = core.run_slices(exe0, ['--suite', prop, '--tier', 'lite' if tier == 'quick' else 'quick'], timeout=timeout, result=res, tag='-O0')
+    # and as a CMake Release build compiles it (-O3 -DNDEBUG: assert() bodies vanish)
+    exe3, _ = build(prop, '-O3', fresh=False, defs=('-DNDEBUG',))
+    res = core.run_slices(exe3, ['--suite', prop, '--tier', 'lite' if tier == 'quick' else 'quick'], timeout=timeout, result=res, tag='-O3 -DNDEBUG')
     rule, bounds = RULES[prop]
     unc = [u for u in rep['uncovered'] if u not in core.HANDWRAPPED]
     core.finish(prop, tier, t0, res, rule=rule, bounds=bounds, assumptions=ASSUME,
-                recipe={'engine': 'fields', 'suite': prop}, replayer=make_replayer(exe),
+                recipe={'engine': 'fields', 'suite': prop, 'tier': tier}, replayer=make_replayer(exe, tier),
                 extra_cov={'planted_bug_selftest': 'wrong spec row for Can.pad: %d mismatches reported, as required' % planted, 'formats': rep['formats'], 'fields': rep['fields'], 'uncovered_accessors': unc})
 
 
 def replay(prop, case):
     exe, _ = build(prop)
-    r = subprocess.run([exe, '--case', case])
+    r = subprocess.run([exe, '--tier', os.environ.get('VERIF_REPLAY_TIER', 'quick'), '--case', case])
     return r.returncode
